@@ -535,7 +535,27 @@ def handoff_case(ctx, case):
         conn.register_packet_listener(listener, Packet)
         try:
             conn.connect()
-            if not parked.wait(20):
+            stuck = None
+            for n_ in range(2000):
+                if parked.wait(0.01) or o.exceptions:
+                    break
+                if n_ % 50 == 49 and \
+                        world.settle(timeout=0.5) in ('idle', 'done'):
+                    # quiescent (the client polls, nothing moves on the
+                    # link) or ended, and the listener has not run
+                    stuck = not parked.wait(0.2)
+                    break
+            if not parked.is_set():
+                if o.exceptions or stuck:
+                    # not timing: the client gave up a session with a
+                    # well-behaved server before the first play packet
+                    ctx.fail('handoff', 'A0-session-failed', case,
+                             ([repr(e[0]) for e in o.exceptions][:2],
+                              srv.errors[:2]),
+                             'the session reaches play')
+                    release.set()
+                    world.kill_all()
+                    return
                 from vlib.core import HarnessError
                 raise HarnessError('C12 handoff: listener never ran')
             if case.get('first', 'user') == 'user':
